@@ -161,6 +161,15 @@ def run(tier):
         chk.set("binding_demo", {"corrupted_rejected": okdemo})
         if not okdemo:
             chk.machinery("binding demonstration failed")
+        # histories of one long-lived balance (BalanceSession.tla behaviours): evaluations interleaved with parameter updates
+        from vlib import balance_session as bs
+        behs = bs.tlc_behaviours(chk, "c10", quick, chk.seed)
+        nb_ = 0
+        for pair_ in (("st4", "st4"),):
+            nb_ += bs.replay(chk, behs, pair_, "C10")
+        chk.add("spec_traces_replayed", len(behs))
+        chk.set("balance_session_evaluations_compared", nb_)
+        evals += nb_
         chk.set("evaluations", evals)
         chk.set("distinct_nontrivial", len(distinct))
         chk.assume("the specification decides missing-value propagation, ordering and the cell that must contain the Janssen root (41-point scan of the "
